@@ -41,8 +41,12 @@ func (h H) whoMayCompact(rule string) {
 		if okCan {
 			leaves := phiLeaves(fi, call.Common().Args[1])
 			good := len(leaves) > 0
+			// what is removed at once must leave the entry AT a follower's match
+			// index in place: the replication reads its term (prevLogTerm of the
+			// next request) through the view it already holds, and this compaction
+			// does not wait for replications to release the range (F19)
 			for _, l := range leaves {
-				if l != "snapTaken.meta.index" && !strings.HasSuffix(l, ".status.matchIndex") {
+				if l != "snapTaken.meta.index" && l != "0" && !(strings.HasPrefix(l, "(") && strings.HasSuffix(l, ".status.matchIndex - 1)")) {
 					good = false
 				}
 			}
@@ -52,7 +56,7 @@ func (h H) whoMayCompact(rule string) {
 					hasMeta = true
 				}
 			}
-			h.C.Check(rule+" bounded-by-snapshot", site, good && hasMeta, h.pos(c), "the compaction bound must be the snapshot index lowered by followers' match indexes; sources: "+strings.Join(leaves, ", "))
+			h.C.Check(rule+" bounded-by-snapshot", site, good && hasMeta, h.pos(c), "the bound of the immediate compaction must be the snapshot index lowered to below every follower's match index (matchIndex-1: the entry at the match index is still read by the replication); sources: "+strings.Join(leaves, ", "))
 			// every lowering happens under matchIndex < current
 			okLower := lowerOnly(fi, call.Common().Args[1])
 			h.C.Check(rule+" only-lowered", site, okLower, h.pos(c), "the compaction bound can be raised above the snapshot index by a follower's match index")
@@ -174,7 +178,7 @@ func lowerOnly(fi *core.FuncInfo, v ssa.Value) bool {
 				continue
 			}
 			s := fi.Sym(e).String()
-			if strings.HasSuffix(s, ".status.matchIndex") {
+			if strings.HasSuffix(s, ".status.matchIndex") || strings.HasSuffix(s, ".status.matchIndex - 1)") {
 				pred := p.Block().Preds[i]
 				last := pred.Instrs[len(pred.Instrs)-1]
 				r := fi.MustCross(last, func(a core.Atom) bool {
